@@ -17,7 +17,7 @@ pub fn prop() -> Prop {
     Prop {
         id: "C15",
         level: "exploration",
-        rule: "proptest tapes decoding to a Text: random built-in font, strings over the font's mapping with \\n, \\r\\n, empty lines, trailing newline, unmapped characters, 3 alignments x 4 baselines x line heights in percent (0..=400) and pixels (0..=40), colour/decoration sets, positions in [-30,30]. Oracle (relations between API calls): per line the bounding box starts at x (Left), ends at x (Right) or satisfies |left + right - 2x| <= 1 (Center), its top is y minus the documented baseline offset {Top 0, Bottom h-1, Middle (h-1)/2, Alphabetic font.baseline}, its width is n*char_width; draw returns measure_string(line, line start).next_position; draw(s1) then draw(s2) at the returned point == draw(s1+s2) in pixels and position (single line, left aligned, built-in fonts have no spacing); a text with line breaks == its lines drawn separately k*line_height below the position, in order, with the last line's return value; replacing \\n by \\r\\n changes neither pixels, nor the returned position, nor the bounding box. A second sub-check repeats all relations except concatenation with copies of the built-in fonts that have character_spacing 1..=3 (line width n*(w+s)-s). Non-trivial: >= 2 lines of different length with alignment != Left, or a \\r\\n.",
+        rule: "proptest tapes decoding to a Text: random built-in font, strings over the font's mapping with \\n, \\r\\n, empty lines, trailing newline, unmapped characters, 3 alignments x 4 baselines x line heights in percent (0..=400) and pixels (0..=40), colour/decoration sets, positions in [-30,30]. Oracle (relations between API calls): per line the bounding box starts at x (Left), ends at x (Right) or satisfies |left + right - 2x| <= 1 (Center), its top is y minus the documented baseline offset {Top 0, Bottom h-1, Middle (h-1)/2, Alphabetic font.baseline}, its width is n*char_width; draw returns measure_string(line, line start).next_position; draw(s1) then draw(s2) at the returned point == draw(s1+s2) in pixels and position (single line, left aligned, built-in fonts have no spacing); a text with line breaks == its lines drawn separately k*line_height below the position, in order, with the last line's return value; replacing \\n by \\r\\n changes neither pixels, nor the returned position, nor the bounding box. Sub-check very_long_lines: one or two lines of which one crosses 2^15 or 2^16 pixels in width (up to about 11 000 characters), three alignments, judged without pixel maps: bounding box start / end / centre rule, drawn extent (an extent-tracking target) inside the box and equal to it horizontally when a background or decoration paints every column, returned position == measure_string's prediction == line start + width. A second sub-check repeats all relations except concatenation with copies of the built-in fonts that have character_spacing 1..=3 (line width n*(w+s)-s). Non-trivial: >= 2 lines of different length with alignment != Left, or a \\r\\n.",
         assumptions: vec![
             "line_height is LineHeight::to_absolute(font height) as documented (pixels, or percent of the font height rounded down)",
             "the concatenation clause is only claimed for fonts without spacing (all built-in fonts)",
@@ -25,6 +25,7 @@ pub fn prop() -> Prop {
         subs: vec![
             Sub::tape("layout", 300, 200_000, 10_000_000, |d, cx| layout(d, cx, false)),
             Sub::tape("layout_spaced_fonts", 300, 100_000, 5_000_000, |d, cx| layout(d, cx, true)),
+            Sub::tape("very_long_lines", 40, 1_500, 75_000, very_long_lines),
         ],
     }
 }
@@ -161,5 +162,87 @@ fn layout(d: &mut Dec, cx: &mut Cx, spaced: bool) -> Res {
     let different = lens.iter().any(|l| *l != lens[0]);
     cx.nontrivial((lines.len() >= 2 && different && item.alignment != Alignment::Left) || (with_crlf && lines.len() >= 2));
     let _ = (gen::point, LineHeight::Percent(100));
+    Ok(())
+}
+
+
+/// Lines wider than 2^15 / 2^16 pixels: the alignment arithmetic and the returned position, judged on
+/// boxes, extents and positions only (no pixel maps).
+fn very_long_lines(d: &mut Dec, cx: &mut Cx) -> Res {
+    let mut item = gen_text::<C>(d, 20, 4);
+    let font = item.font();
+    let (cw, ch) = (font.character_size.width as i32, font.character_size.height as i32);
+    let target = d.pick(&[32_768, 65_536, 65_536, 65_536]) + d.i(-70, 400);
+    let n = (target / cw).max(1) + d.i(0, 2);
+    let chars = font_chars(item.font);
+    let mut x = d.raw() | 1;
+    let long: String = (0..n)
+        .map(|_| {
+            x ^= x << 13;
+            x ^= x >> 17;
+            x ^= x << 5;
+            chars[(x >> 8) as usize % chars.len()]
+        })
+        .collect();
+    // the long line alone, or after / before a short line (the short part comes from the generator)
+    let short: String = item.text.chars().filter(|c| *c != '\n' && *c != '\r').take(3).collect();
+    let (text, long_index, nlines) = match d.u(0, 2) {
+        0 => (long.clone(), 0, 1),
+        1 => (format!("{}\n{}", short, long), 1, 2),
+        _ => (format!("{}\n{}", long, short), 0, 2),
+    };
+    item.text = text;
+    item.line_height = embedded_graphics::text::LineHeight::Percent(100);
+    let width = n * cw;
+    let short_w = short.chars().count() as i32 * cw;
+    cx.describe(|| format!("{} characters of {} px = {} px in line {} of {}; font {} alignment {:?} baseline {:?} pos {:?} colours {:?}/{:?} underline {:?}", n, cw, width, long_index, nlines, FONTS[item.font].0, item.alignment, item.baseline, item.pos, item.text_color, item.background, item.underline));
+    cx.class(match item.alignment {
+        Alignment::Left => "left",
+        Alignment::Center => "center",
+        Alignment::Right => "right",
+    });
+    let text = item.build();
+    let bb = text.bounding_box();
+    let x0 = item.pos.x;
+    // per line: [left, right] by the alignment rule
+    let line_box = |w: i32| -> (i32, i32, bool) {
+        match item.alignment {
+            Alignment::Left => (x0, x0 + w - 1, true),
+            Alignment::Right => (x0 - w + 1, x0, true),
+            Alignment::Center => (x0 - (w - 1) / 2 - 1, x0 + w / 2 + 1, false), // within one pixel, checked below
+        }
+    };
+    let (l, r, exact) = line_box(width);
+    let (bl, br) = (bb.top_left.x, bb.top_left.x + bb.size.width as i32 - 1);
+    // the box of the whole text is the envelope of its lines; the long line dominates
+    if exact {
+        let (sl, sr, _) = if nlines == 2 && short_w > 0 { line_box(short_w) } else { (l, r, true) };
+        ensure!(bl == l.min(sl) && br == r.max(sr), "long_line:bounding_box", "bounding box spans x = {}..={}, the {:?}-aligned line of {} px at x = {} spans {}..={}", bl, br, item.alignment, width, x0, l, r);
+    } else {
+        ensure!(bb.size.width as i32 == width, "long_line:bounding_box_width", "bounding box is {} px wide, the line {}", bb.size.width, width);
+        ensure!((bl + br - 2 * x0).abs() <= 1, "long_line:center", "centred line spans x = {}..={} around x = {} (left + right - 2x = {})", bl, br, x0, bl + br - 2 * x0);
+    }
+    // drawn extent and returned position
+    let mut t = ExtentT::<C>::new();
+    let next = text.draw(&mut t).map_err(|e| Fail { sig: "long_line:draw_error".into(), detail: format!("{:?}", e) })?;
+    if let (Some(min), Some(max)) = (t.min, t.max) {
+        ensure!(min.x >= bl && max.x <= br, "long_line:drawn_outside_box", "drawn extent x = {}..={} is not inside the bounding box {}..={}", min.x, max.x, bl, br);
+        let paints_all_columns = item.background.is_some() || (!item.underline.is_none() && (item.text_color.is_some() || matches!(item.underline, embedded_graphics::text::DecorationColor::Custom(_))));
+        if paints_all_columns {
+            ensure!(min.x == bl && max.x == br, "long_line:drawn_extent", "every column is painted (background or underline) but the drawn extent is x = {}..={}, the box {}..={}", min.x, max.x, bl, br);
+        }
+    }
+    // the last line decides the returned position: its left end plus its width
+    let last_w = if long_index + 1 == nlines { width } else { short_w };
+    let last_left = match item.alignment {
+        Alignment::Left => x0,
+        Alignment::Right => x0 - last_w + if last_w > 0 { 1 } else { 0 },
+        Alignment::Center => next.x - last_w, // judged through the bounding box above
+    };
+    if last_w > 0 {
+        ensure!(next.x == last_left + last_w, "long_line:next_position", "draw returned x = {}, the last line starts at {} and is {} px wide", next.x, last_left, last_w);
+    }
+    let _ = ch;
+    cx.nontrivial(width > 32_767 && item.alignment != Alignment::Left);
     Ok(())
 }
